@@ -2,3 +2,6 @@
 pub assume_specification<T, F: FnOnce(T) -> bool> [Option::<T>::is_some_and] (o: Option<T>, f: F) -> (r: bool)
     requires o is Some ==> f.requires((o->Some_0,)),
     ensures o is None ==> !r, o is Some ==> f.ensures((o->Some_0,), r);
+// Result::unwrap_or has no vstd specification (std semantics, trusted)
+pub assume_specification<T, E> [Result::<T, E>::unwrap_or] (r: Result<T, E>, default: T) -> (o: T)
+    ensures r matches Ok(v) ==> o == v, r is Err ==> o == default;
